@@ -99,12 +99,23 @@ def shape_features(tree):
             lang.cond_refs(c, refs)
         return {i for (_, i) in refs}
 
+    def subtree_vars(block):
+        out = set()
+        for u in all_units(block):
+            out |= cond_vars(u)
+        return out
+
     for b in all_units(tree):
         refs_ = [ch["block"] for ch in b["children"] if ch["kind"] == "refinement"]
         for x in range(len(refs_)):
+            # whether the earlier sibling (with everything below it) fires depends on these variables; a conclusion
+            # anywhere below a later sibling that is over fewer variables is recorded as concluded for a binding
+            # where the earlier sibling overrides it, and is then missing for the bindings where it does not
+            depends_on = subtree_vars(refs_[x])
             for y in range(x + 1, len(refs_)):
-                if refs_[y]["args"] is not None and not cond_vars(refs_[x]) <= set(refs_[y]["args"]):
-                    f.add("sibling_refinement_shadowing")
+                for z in all_units(refs_[y]):
+                    if z["args"] is not None and not depends_on <= set(z["args"]):
+                        f.add("sibling_refinement_shadowing")
 
     check_chains(tree)
     for b in all_units(tree):
@@ -137,6 +148,7 @@ class C08(Check):
         "an alternative written after a next_rule: 'its chain' is read either as everything written before it or as the branches since that next_rule; where the readings differ the alternative's conclusions are allowed but not required",
         "blocks written below an alternative/next_rule branch only mention that branch's variables (primary fragment)",
         "conditions are comparisons/membership/boolean calls combined with and_ (the C02 fragment without or_)",
+        "every branch condition is an expression object of its own (one condition object placed in two branches of a rule tree is not generated)",
     ]
     budget = {
         "quick": dict(examples=300, shards=16, seconds=75),
@@ -147,7 +159,7 @@ class C08(Check):
     def strategy(self, tier, exclude):
         cfg = gen.Cfg(fragment="c02", allow_quantifiers=False, allow_subquery=False, allow_flatten=False,
                       allow_derived_selection=False, allow_empty_domain=False, min_dom=1, allow_noise=False,
-                      allow_predicates=False, unique_domains=True)
+                      allow_predicates=False, unique_domains=True, allow_shared_nodes=False)
         cfg.max_vars = 3
         ex = set(exclude)
 
